@@ -3,6 +3,14 @@ one upstream fetch per meta tile, store before release, stale fallback.  Trace c
 from pyvc.api import contract, cls, ghost, lemma
 from pyvc import tracelib as T
 from . import shared_grid, c03_grid, c04_meta  # noqa
+
+# one declaration of TileManager for every module that puts its methods under contract (a later, different declaration would
+# silently replace an earlier one and change what the trace clauses of the other module can see)
+TILE_MANAGER_FIELDS = dict(grid='opaque', cache='opaque', sources='list[opaque]', rescale_tiles='int', identifier='opaque',
+                           meta_grid='opaque', format='opaque', image_opts='opaque', request_format='opaque',
+                           minimize_meta_requests='bool', concurrent_tile_creators='int', locker='opaque',
+                           _expire_timestamp='opt[real]', _refresh_before='opaque', pre_store_filter='opaque',
+                           bulk_meta_tiles='opaque', cache_rescaled_tiles='opaque', dimensions='opaque')
 C = 'mapproxy.cache.tile:'
 G = 'mapproxy.grid:'
 
